@@ -3,7 +3,8 @@ C04 — boundary term: Dirichlet / outward-normal Neumann per facet.
 Correspondence: terms['boundary_loss'] of real LossPDEStatio / LossPDENonStatio (dims 1 and 2, polynomial PINN,
 non-zero polynomial f, a different f on each facet, f = the true outward normal derivative / trace and its
 negation, hand-built border batches and batches of the real generators, 1..4 time points, int / slice component
-selections, global and per-facet dictionary specifications with None facets) against
+selections, global and per-facet dictionary specifications with None facets; real SPINNs with polynomial
+per-coordinate features, Dirichlet and Neumann, stationary and non-stationary, dims 1 and 2) against
 JinnsModel/Boundary.lean fed with exact tables of u, of its space derivatives and of f at the border points.
 The loss-case machinery is shared with C03 (harness/c03.py).
 """
@@ -30,7 +31,9 @@ LEVEL_TEXT = ("Lean 4 theorems, for all networks (value and derivative oracles),
               "the implementation's own value and on three metamorphic re-evaluations of the implementation.")
 LEVEL_NOTE = ("Trusted: Lean kernel + {propext, Classical.choice, Quot.sound}; JAX AD is an oracle (the table of first "
               "derivatives is computed by the harness with exact polynomials); the tie of the hand-written model to the "
-              "code is differential; SPINN branches are not covered here; per-component boundary weights are outside the "
+              "code is differential; a separable network (SPINN) is evaluated on the tensor grid of the coordinate "
+              "columns of the facet batch, the model states that grid and the theorems reduce its mean to the mean "
+              "over the facet's points (pinned coordinate constant); per-component boundary weights are outside the "
               "property (the code multiplies the weight after the component sum).")
 THEOREMS = [
     "Jinns.Boundary.normal_eq_outward",
@@ -46,6 +49,12 @@ THEOREMS = [
     "Jinns.Boundary.facetLoss_product_eq_mean_over_times",
     "Jinns.Boundary.facetLoss_time_indep",
     "Jinns.Boundary.facetLoss_dup_rows",
+    "Jinns.Boundary.cart_mean_const_col",
+    "Jinns.Boundary.grid_mean_eq_rows_first_pinned",
+    "Jinns.Boundary.grid_mean_eq_rows_second_pinned",
+    "Jinns.Boundary.grid_mean_times_cross",
+    "Jinns.Boundary.boundarySpinn_eq_sum_facets",
+    "Jinns.Boundary.facetLossSpinn_eq_facetLoss_2d",
 ]
 RULE = ("cases = (stationary / non-stationary, dimension 1 or 2, network with 1..3 outputs, specification global or "
         "per-facet dictionary with None facets, condition / component selection / f / return shape per facet, border "
@@ -61,8 +70,10 @@ ASSUMPTIONS = [
 ]
 
 
-def gen_case(rng, kind, d, m, source, nb, nt, malformed=False):
+def gen_case(rng, kind, d, m, source, nb, nt, malformed=False, spinn=False):
     case = K.base_case(rng, kind, d, m, 2)
+    if spinn:
+        case["spinn"], case["u"] = K.gen_spinn(rng, kind, d, m, R=rng.choice([1, 2]))
     case["boundary"] = K.gen_boundary(rng, case)
     if source == "hand":
         case["batch"]["border"] = [[K.qrow(c) for c in row] for row in K.gen_border(rng, kind, d, nb, nt=nt)]
@@ -91,6 +102,35 @@ def gen_cases(rng, tier):
                     nt = rng.choice([1, 2, 2, 4] if tier == "quick" else [1, 2, 3, 4])
                     cases.append(gen_case(rng, kind, d, m, source, nb, nt))
             cases.append(gen_case(rng, kind, d, 1, "hand", 1 if d == 1 else 2, 2, malformed=True))
+    # separable networks (SPINN branches): every facet, Dirichlet and Neumann, with and without time
+    sreps = 3 if tier == "quick" else 16
+    for kind in ("statio", "nonstatio"):
+        for d in (1, 2):
+            for r in range(sreps):
+                m = rng.choice([1, 1, 2])
+                source = "gen" if (r % 3 == 2) else "hand"
+                if kind == "nonstatio" and d == 2:
+                    # rows (t_i, x_i, y_i); the SPINN works on the rows^3 grid
+                    nb, nt = rng.choice([1, 2, 2] if tier == "quick" else [1, 2, 3, 4]), 1
+                else:
+                    nb = 1 if d == 1 else rng.choice([1, 2, 2, 4])
+                    nt = rng.choice([1, 2, 2, 4]) if d == 1 else 1
+                c = gen_case(rng, kind, d, m, "hand", nb, nt, spinn=True)
+                # every (kind, d) gets at least one Neumann and one Dirichlet configuration
+                need = ["neumann", "dirichlet", None][r % 3]
+                while need and not any(f is not None and f["cond"] == need for f in c["boundary"]["facets"]):
+                    c["boundary"] = K.gen_boundary(rng, c)
+                if kind == "nonstatio" and d == 2:
+                    # one time per border row (the paired layout recommended for SPINNs)
+                    border = c["batch"]["border"]
+                    for row in border:
+                        t = K.q(Fr(rng.randint(0, 6), 2))
+                        row[0] = [t] * len(row[0])
+                if source == "gen":
+                    c["batch"] = K.gen_batch_spec(rng, c, 2, nbb=nb, nt=max(nt, 1))
+                    if kind == "nonstatio" and d == 2:
+                        c["batch"].update(cartesian=False, n=nb, nt=nb, nb=4 * nb, nbb=nb)
+                cases.append(c)
     return cases
 
 
@@ -217,7 +257,9 @@ def nontrivial(case, obs):
 def tags(case, obs):
     b = case["boundary"]
     out = [f"kind={case['kind']}", f"d={case['d']}", f"m={case['m']}", f"batch={case['batch']['source']}",
-           "spec=" + ("global" if b["global"] else "dict")]
+           "spec=" + ("global" if b["global"] else "dict"), "net=" + ("spinn" if case.get("spinn") else "pinn")]
+    if case.get("spinn"):
+        out.append(f"spinn:{case['kind']}:d={case['d']}")
     if case.get("malformed"):
         out.append("malformed")
     for f in b["facets"]:
